@@ -848,6 +848,12 @@ def check_c16(tier, seed, log=print):
     srcs += c11[:6] + c11[60:72] + c11[-6:]
     srcs += [F.enum([], ['#[token("ab")] A,']), F.enum([], ['#[token("ab", ignore(case))] A,']), F.enum(['#[logos(utf8 = false)]'], ['#[token("ab")] A,']),
              F.enum([], ['#[regex("a|é")] A,']), F.enum(['#[logos(utf8 = false)]'], ['#[regex("a|é")] A,']), F.enum([], ['#[regex("a|é", ignore(case))] A,'])]
+    # definitions with several independent diagnostics: their order is part of the output
+    srcs += [F.enum(['#[logos(subpattern a = "(")]', '#[logos(subpattern b = "[z-a]")]', '#[logos(subpattern c = b"\\xff")]', '#[logos(subpattern d = "x{2,1}")]', '#[logos(subpattern e = "(?-u:\\x80)")]'],
+                    ['#[regex("[a-z]+")] W,']),
+             F.enum([], ['#[regex("(")] A,', '#[regex("[z-a]")] B,', '#[regex("a*")] C,', '#[regex(".*q")] D,', '#[regex("(?&nope)")] E,', '#[token("x", priority = 1, priority = 2)] G,']),
+             F.enum(['#[logos(extras = u8, extras = u16, error = E1, error = E2, utf8 = true, utf8 = false)]'], ['#[regex("a")] A,', '#[regex("a")] B,', '#[regex("[a-b]")] C,', '#[token("b")] D,']),
+             F.enum(['#[logos(skip "(", skip "[z-a]", skip ")", bogus, other = 3)]'], ['#[token("k")] K(u8, u8),', '#[token("l")] L { x: u8 },', '#[token("m")] M(),'])]
     builds = {}
     bdir = os.path.join(P.HARNESS, 'target', 'debug', 'capture')
     builds['tailcall'] = bdir
